@@ -29,6 +29,24 @@ def guarded(f):
         return {'error': type(e).__name__ + ': ' + str(e)[:160]}
 
 
+def prelude(cases):
+    """Call history before anything is projected: every other library entry point that reads the module-level
+    projection cache (Spectrum._from_count_dict, used by from_data_dict and the bootstraps) is run first on count
+    dictionaries whose (proj_to, proj_from, hits) keys overlap the triples examined afterwards; the projection
+    weights must still be the hypergeometric ones whatever ran before."""
+    out = []
+    for c in cases:
+        cd = {}
+        for called, derived, pol, cnt in c['entries']:
+            cd[(tuple(called), tuple(derived), bool(pol))] = cnt
+        try:
+            fs = dadi.Spectrum._from_count_dict(cd, c['projections'], polarized=True)
+            out.append({'total': float(fs.data.sum())})
+        except Exception as e:      # noqa
+            out.append({'error': type(e).__name__ + ': ' + str(e)[:160]})
+    return out
+
+
 def weights(triples):
     """each triple is evaluated through the module-level cache exactly as Spectrum.project does; the list is
     walked twice (second pass = cache hits) and the two passes are returned separately."""
@@ -108,6 +126,7 @@ def neutral(pairs):
 def main():
     payload = json.load(sys.stdin)
     res = {}
+    res['prelude'] = prelude(payload.get('prelude', []))
     w1, w2 = weights(payload.get('weights', []))
     res['weights'] = w1
     res['weights_cached'] = w2
